@@ -15,7 +15,8 @@ RECT_FAMILIES = ['ortho-1d', 'ortho-2d', 'ortho-3d', 'skew-2d', 'skew-3d',
 HEX_FAMILIES = ['regular-6', 'regular-8', 'irregular-6', 'irregular-8',
                 'rotated-6', 'rotated-8', 'handed-minus', 'handed-plus',
                 'swap-last', 'cli-single', 'array-own-zero', 'fill-rotation',
-                'container-rot', 'flip-axial']
+                'container-rot', 'flip-axial', 'nonadjacent-6',
+                'nonadjacent-8']
 
 LAT_U = 50          # universe of the lattice cell
 LAT_CELL = 500
@@ -381,6 +382,10 @@ def build_hex(rng, family):
         step = -1
     elif family == 'handed-plus':
         step = 1
+    elif family.startswith('nonadjacent'):
+        # the third-listed side is two sides away from the first: a1 and a2
+        # are 120 degrees apart (element (1,1) is then a neighbour)
+        step = rng.choice([-2, 2])
     else:
         step = rng.choice([-1, 1])
     third = (first + step) % 6
